@@ -24,6 +24,17 @@ def streams(tier, seed):
         for dm in dims:
             out.append([new_op(rng, 0, dims=dims, shape=[2, 3, 4]),
                         {"op": "unfold", "obj": 0, "dim": dm}, {"op": "fold", "obj": 0}])
+    # sort, systematically: every dim of 2-D and 3-D objects (so the sorted axis is first, middle, last) with ascending,
+    # strictly descending and shuffled coordinates; distinct and equal extents
+    for nd in (2, 3):
+        for equal in (False, True):
+            for k in range(nd):
+                for kind in ("asc", "desc", "shuffled"):
+                    dims = rng.sample(DIM_POOL, nd)
+                    shape = [3] * nd if equal else distinct_shape(rng, nd, 2, 5)
+                    kinds = ["asc"] * nd; kinds[k] = kind
+                    out.append([new_op(rng, 0, dims=dims, shape=shape, cplx=False, kinds=kinds),
+                                {"op": "sort", "obj": 0, "dim": dims[k]}])
     n = 60 if tier == "quick" else 600
     for t in range(n):
         ops = [new_op(rng, 0, attrs=rng.random() < 0.5, hist=rng.randint(0, 2))]
@@ -84,6 +95,18 @@ def streams(tier, seed):
                     b["coords"][k] = [str(last + 1 + i) for i in range(shape_b[k])]
                     out.append([a, b, {"op": "reorder", "obj": 1, "dims": list(perm)},
                                 {"op": "concatenate", "obj": 0, "other": 1, "dim": dm}])
+    # concat of objects of DIFFERENT value kinds (real first, complex later, and the other way round): stacking must not
+    # cast later objects to the first one's dtype
+    for nd in (1, 2, 3):
+        for first_cplx in (False, True):
+            dims = rng.sample(DIM_POOL, nd)
+            shape = distinct_shape(rng, nd, 2, 4)
+            a = new_op(rng, 0, dims=dims, shape=shape, cplx=first_cplx)
+            b = new_op(rng, 1, dims=dims, shape=shape, cplx=not first_cplx, salt=77)
+            b["coords"] = [list(c) for c in a["coords"]]
+            c3 = new_op(rng, 2, dims=dims, shape=shape, cplx=True, salt=99)
+            c3["coords"] = [list(c) for c in a["coords"]]
+            out.append([a, b, c3, {"op": "concat", "objs": [0, 1, 2], "dim": "cc", "coord": None, "out": 3}])
     # split: dim in every position
     for t in range(12 if tier == "quick" else 120):
         nd = rng.randint(1, 3)
